@@ -185,7 +185,19 @@ def dump_ast(x):
 
 
 def impl_parse(s):
-    """Outcome of the real parser, and the property verdict for this input."""
+    """Outcome of the real parser and the property verdict for this input; the string is parsed a second time right away
+    (parsing is independent of what was parsed before - seeded C16-7: remembered failures re-raised differently)"""
+    out, why = _parse_once(s)
+    if why is None and out.get("err") != "recursion":
+        out2, why2 = _parse_once(s)
+        if why2 is not None:
+            why = "second parse of the same string: " + why2
+        elif comparable(out2) != comparable(out) or out2.get("rendered") != out.get("rendered"):
+            why = f"second parse of the same string differs: {out2}"
+    return out, why
+
+
+def _parse_once(s):
     from _delb.exceptions import XPathParsingError, XPathUnsupportedStandardFeature
     from _delb.xpath.parser import parse
 
